@@ -274,7 +274,7 @@ def judge_oversize(meta, out, err):
 
 class Spec:
     props_module = "Mhd.Props.C08"
-    lean_targets = ["Mhd.Props.C08", "drv_pool"]
+    lean_targets = ["Mhd.Props.C08", "drv_pool", "drv_mem"]
     required_theorems = ["Mhd.C08.step_wf", "Mhd.C08.run_wf", "Mhd.C08.block_in_bounds_disjoint",
                          "Mhd.C08.refused_unchanged", "Mhd.C08.others_untouched",
                          "Mhd.C08.realloc_preserves", "Mhd.C08.reset_keeps"]
@@ -290,6 +290,11 @@ class Spec:
 
     def build(self, ctx):
         self.h_daemon = vlib.build_daemon_harness()
+        import importlib
+        self.C01 = importlib.import_module("props.C01")
+        c01 = self.C01.Spec()
+        c01.build(ctx)                      # buffer-layer harness + pool-poisoning daemon build (shared with C01)
+        self.h_mem, self.drv_mem, self.h_poison = c01.h_mem, c01.driver, c01.h_poison
         self.harness = vlib.cc("h_pool", [os.path.join(vlib.VERIF, "harness/h_pool.c")])
         self.driver = vlib.driver_path("drv_pool")
 
@@ -378,6 +383,21 @@ class Spec:
             if kind:
                 import re as _re
                 failures.append(vlib.Failure(kind, "arena-bound: " + _re.sub(r"\d+", "N", det)[:100], det + " | " + json.dumps(meta), lines, "conn"))
+        # buffer sizing functions of connection.c anchored in this property (alloc_memory_, try_grow_read_buffer,
+        # maximize_write_buffer, reset): same white-box engine as C01, model = Mhd.Model.ConnMem
+        memx = importlib.import_module("props._c01mem")
+        fm, cov_mem = memx.explore(ctx, self.h_mem, self.drv_mem, boost)
+        failures += fm
+        # replies and pipelined uploads on the daemon built with the pool's red zones: a block used beyond its size
+        # (still inside the arena) is reported by ASan there
+        pc = [c for c in self.C01.gen_cases(ctx, 150 if ctx.tier == "quick" else 1500) if c[1].get("kind") in ("lazy-upload+pipeline", "body", "hdrs") or "last" in c[1]]
+        resp = self.C01.run_cases(self.h_poison, pc)
+        for i, (lines, meta) in enumerate(pc):
+            out, err = resp.get(i, ([], "not run"))
+            kind, det = self.C01.judge(lines, meta, out, err)
+            if kind:
+                import re as _re
+                failures.append(vlib.Failure(kind, "arena-blocks: " + _re.sub(r"\d+", "N", det)[:100], "[pool-poisoning build] " + det, lines, "conn"))
         distinct = len({json.dumps(s) for s in allseqs if len(s) > 2})
         cov = {"evaluations": len(allseqs), "distinct_nontrivial": distinct,
                "rule": "op sequences on the real pool and the Lean model; distinct = different scripts with >=2 ops; "
@@ -385,8 +405,9 @@ class Spec:
                        "random: sizes incl. 0 and near SIZE_MAX" % (exh_len, EXH_ALPHA),
                "samples": [[" ".join(o) for o in rnd[0]], [" ".join(o) for o in exh[len(exh) // 2]]],
                "exhaustive_sequences": len(exh), "exhaustive_alphabet": EXH_ALPHA, "random_sequences": len(rnd), "corpus": ncorp,
-               "outcomes": stats, "oversized_requests": len(ov), "oversized_outcomes": ov_stats, "exhaustive": False}
-        cov["evaluations"] += len(ov)
+               "outcomes": stats, "oversized_requests": len(ov), "oversized_outcomes": ov_stats, "buffer_layer": cov_mem,
+               "poisoned_pool_daemon_cases": len(pc), "exhaustive": False}
+        cov["evaluations"] += len(ov) + len(pc) + cov_mem.get("evaluations", 0)
         return failures, cov
 
 
